@@ -28,8 +28,13 @@ def _evidence(F, fn):
         b = Body(f)
         for bb, t in b.calls():
             n = callee(t) or ""
-            if n.endswith("::is_char_boundary") or re.search(r"OffsetBuffer(::<[^>]*>)?::try_push$", n):
-                return "%s" % n.split("::")[-1]
+            if n.endswith("::is_char_boundary"):
+                return "is_char_boundary"
+            if re.search(r"OffsetBuffer(::<[^>]*>)?::try_push$", n):
+                # try_push(data, validate_utf8): the boundary check happens only if the flag is passed on, not a literal `false`
+                k = op_const(t["args"][2]) if len(t["args"]) > 2 else None
+                if k is None or "false" not in str(k[0] if isinstance(k, (list, tuple)) else k):
+                    return "try_push with the validate flag"
         for bl in range(b.n):
             for s in b.stmts(bl):
                 if s[0] != "a" or s[2][0] != "bin":
